@@ -145,13 +145,16 @@ def Cur.finish (d : List Nat) (c : Cur) : Bool := decide (c.pos ≤ d.length)
 /-- `ComputedArray::new`: `len = data.len().checked_div(item_len).unwrap_or(0)` -/
 def compLen (dataLen itemLen : Nat) : Nat := if itemLen = 0 then 0 else dataLen / itemLen
 
-/-- `ComputedArray::get(idx)`: the start offset of the item handed to `T::read_with_args`, `none` =
-`Err(OutOfBounds)`: `idx >= len` (/repo fix 504de7e), `idx.checked_mul(item_len)`, `data.split_off`. -/
+/-- `ComputedArray::get(idx)` for an item type whose `read_with_args` needs exactly `item_len` bytes
+(`Tuple`, `ValueRecord`, the generated fixed-layout records): `idx.checked_mul(item_len)`,
+`data.split_off(start)`, and the item read, which succeeds iff `item_len` bytes remain.  `some off` =
+`Ok`, `none` = `Err`.  `get` does NOT consult `len()`: for `item_len = 0` (where `len() = 0`, the count
+is not recoverable from the byte length) every index is answered with the empty item — e.g. the
+class1 records of a PairPosFormat2 with two empty value formats stay readable (/repo 6475b6a). -/
 def compGet (dataLen itemLen idx : Nat) : Option Nat :=
-  if idx ≥ compLen dataLen itemLen then none
-  else match checkedMul idx itemLen with
-    | none => none
-    | some off => if off ≤ dataLen then some off else none
+  match checkedMul idx itemLen with
+  | none => none
+  | some off => if off + itemLen ≤ dataLen then some off else none
 
 /-- one scripted cursor operation (driver / harness protocol) -/
 inductive Op where
